@@ -54,12 +54,57 @@ pub fn units(f: Family, t: &Target) -> Vec<usize> {
     }
 }
 
+/// Replies that are malformed in different ways, derived from the datagram `head` the server really sent: unrelated
+/// garbage; the reply cut down to its first byte; and, where the format has one, the right prefix / session with a reply
+/// kind the format does not define. Every one of them is a reply (something was received), so none may be retried.
+pub fn malformed_shapes(f: Family, head: &[u8]) -> Vec<Vec<u8>> {
+    let mut v: Vec<Vec<u8>> = vec![GARBAGE.to_vec()];
+    // (GameSpy 1 has no header: a lone backslash is an empty, unnumbered part, which the format allows)
+    if head.len() > 1 && f != Family::Gs1 {
+        v.push(head[.. 1].to_vec());
+    }
+    let single = head.starts_with(&[0xFF, 0xFF, 0xFF, 0xFF]);
+    let with = |idx: usize, b: u8| -> Option<Vec<u8>> {
+        if head.len() > idx && head[idx] != b {
+            let mut d = head.to_vec();
+            d[idx] = b;
+            Some(d)
+        } else {
+            None
+        }
+    };
+    match f {
+        // FF FF FF FF <kind>: an undefined kind under the right prefix
+        // (in a split packet, FE FF FF FF, the fifth byte belongs to the response id instead)
+        Family::Valve(_) | Family::Ffow if single => v.extend(with(4, 0x7a)),
+        // FF FF FF FF print\n..: another out-of-band message than the status response
+        Family::Quake(_) => v.push(b"\xff\xff\xff\xffprint\nnot a status response\n".to_vec()),
+        // <kind> <session id> ..: an undefined kind with the right session id
+        Family::Gs3 | Family::Jc2m => v.extend(with(0, 0x7f)),
+        // 00 <echoed request id> ..: a wrong delimiter byte
+        Family::Gs2 => v.extend(with(0, 0x7f)),
+        // 80 00 00 00 <kind>: an undefined reply kind
+        Family::Unreal2 => v.extend(with(4, 0x7f)),
+        // 1C ..: not an unconnected pong
+        Family::Bedrock => v.extend(with(0, 0x7f)),
+        _ => {}
+    }
+    v.retain(|d| d.as_slice() != head);
+    v
+}
+
+/// Shapes beyond the first two are well-formed except for a reply kind the format does not define: a client may be lenient
+/// about those (the property only forbids retrying after them), so a successful result is tolerated for them.
+fn is_undefined_kind_shape(d: &[u8]) -> bool { d != GARBAGE && d.len() > 1 }
+
 struct Faults {
     family: Family,
     unit: usize,
     cur_unit: usize,
     recv_since_start: usize,
     first_recv_only: bool,
+    /// the malformed datagrams delivered in this execution
+    delivered: std::sync::Arc<std::sync::Mutex<Vec<Vec<u8>>>>,
 }
 
 impl Policy for Faults {
@@ -76,21 +121,20 @@ impl Policy for Faults {
     }
     fn recv_menu(&mut self, pt: &RecvPoint) -> usize {
         if self.cur_unit == self.unit && !pt.queue.is_empty() && (!self.first_recv_only || self.recv_since_start == 0) {
-            3
+            2 + malformed_shapes(self.family, &pt.queue[0]).len()
         } else {
             1
         }
     }
-    fn recv_pick(&mut self, _pt: &RecvPoint, idx: usize) -> Pick {
+    fn recv_pick(&mut self, pt: &RecvPoint, idx: usize) -> Pick {
         self.recv_since_start += 1;
         match idx {
             0 => Pick::Head,
             1 => Pick::Timeout { drop_all: true },
-            _ => {
-                Pick::Custom {
-                    data: GARBAGE.to_vec(),
-                    consume: true,
-                }
+            k => {
+                let data = malformed_shapes(self.family, &pt.queue[0])[k - 2].clone();
+                self.delivered.lock().unwrap().push(data.clone());
+                Pick::Custom { data, consume: true }
             }
         }
     }
@@ -101,6 +145,8 @@ pub enum Attempt {
     SendFail,
     Silent,
     Malformed,
+    /// malformed only in carrying an undefined reply kind
+    UndefinedKind,
     Valid,
 }
 
@@ -109,7 +155,7 @@ impl Attempt {
 }
 
 /// Reconstruct the per-attempt outcomes of `unit` from the wire log.
-pub fn attempts(f: Family, unit: usize, log: &[WireEvent]) -> Vec<Attempt> {
+pub fn attempts(f: Family, unit: usize, log: &[WireEvent], malformed: &[Vec<u8>]) -> Vec<Attempt> {
     let mut v: Vec<Attempt> = Vec::new();
     let mut cur_unit = usize::MAX;
     // Unreal 2 reads list datagrams greedily until a timeout: only the first receive belongs to the (retried) request
@@ -142,7 +188,10 @@ pub fn attempts(f: Family, unit: usize, log: &[WireEvent]) -> Vec<Attempt> {
                     if *last == Attempt::Valid {
                         match data {
                             None => *last = Attempt::Silent,
-                            Some(d) if d.as_slice() == GARBAGE => *last = Attempt::Malformed,
+                            // (the client may have asked for fewer bytes than the datagram has)
+                            Some(d) if malformed.iter().any(|m| m == d || (d.len() < m.len() && m.starts_with(d))) => {
+                                *last = if malformed.iter().any(|m| m == d && is_undefined_kind_shape(m)) { Attempt::UndefinedKind } else { Attempt::Malformed };
+                            }
                             _ => {}
                         }
                     }
@@ -200,7 +249,7 @@ impl Prop for C10 {
     fn rule(&self) -> String {
         "case = (protocol entry point that retries, request unit of its exchange: info / players / rules, handshake+data, \
          handshake+status+ping ..., retry count r in 0..3). Within the unit every send may fail and every pending reply may \
-         be delivered, dropped (silence) or replaced by garbage; ALL such outcome sequences are enumerated (the tree is finite \
+         be delivered, dropped (silence) or replaced by a malformed reply (2-4 shapes per format, see assumptions); ALL such outcome sequences are enumerated (the tree is finite \
          because attempts are bounded), the other units are answered validly. Reference model: attempts continue exactly \
          while the previous attempt was timeout-class (nothing received / could not send) and fewer than r+1 were made; never \
          after a malformed reply; first valid attempt => result identical to the fault-free result; malformed => error of a \
@@ -211,7 +260,7 @@ impl Prop for C10 {
     fn assumptions(&self) -> Vec<String> {
         vec![
             "gather toggles are Enforce so that section failures surface as errors (Try/Skip semantics are C11's subject)".into(),
-            "'malformed' is the 2-byte datagram AB CD, which every format rejects with a non-timeout error".into(),
+            "'malformed' is one of: the 2-byte datagram AB CD; the real reply cut down to its first byte; the real reply with an undefined reply kind under the right prefix / session id (Valve, FFOW, GameSpy 2/3, Unreal 2, Bedrock) or another out-of-band message (Quake 'print'); each is rejected by the format".into(),
         ]
     }
     fn run_case(&self, tier: Tier, idx: usize, ctx: &mut Ctx) {
@@ -237,17 +286,21 @@ impl Prop for C10 {
             ctx,
             &ExploreCfg::all(),
             |prefix| {
+                let delivered = std::sync::Arc::new(std::sync::Mutex::new(Vec::new()));
                 let policy = Faults {
                     family: fam,
                     unit: case.unit,
                     cur_unit: usize::MAX,
                     recv_since_start: 0,
                     first_recv_only: fam == Family::Unreal2,
+                    delivered: delivered.clone(),
                 };
-                (run_query((t.server)(), Box::new(policy), Chooser::new(prefix), || (t.call)(ts)), ())
+                let x = run_query((t.server)(), Box::new(policy), Chooser::new(prefix), || (t.call)(ts));
+                let d = delivered.lock().unwrap().clone();
+                (x, d)
             },
-            |ctx, x, _| {
-                let at = attempts(fam, case.unit, &x.log);
+            |ctx, x, malformed| {
+                let at = attempts(fam, case.unit, &x.log, malformed);
                 let tag = super::c09::family_tag(fam);
                 let mut bad: Option<(String, String)> = None;
                 if at.len() > r + 1 {
@@ -257,7 +310,7 @@ impl Prop for C10 {
                     let more = i + 1 < at.len();
                     if !a.timeout_class() && more {
                         bad = Some((
-                            if *a == Attempt::Malformed { "retry-after-malformed-reply".into() } else { "retry-after-valid-reply".into() },
+                            if matches!(a, Attempt::Malformed | Attempt::UndefinedKind) { "retry-after-malformed-reply".into() } else { "retry-after-valid-reply".into() },
                             format!("attempt {} was {a:?} but {} more followed", i + 1, at.len() - i - 1),
                         ));
                         break;
@@ -274,7 +327,8 @@ impl Prop for C10 {
                                 bad = Some(("result-differs-from-fault-free".into(), format!("outcome {}", x.outcome.class())));
                             }
                         }
-                        Some(Attempt::Malformed) => {
+                        Some(Attempt::UndefinedKind) if x.outcome.ok().is_some() => {}
+                        Some(Attempt::Malformed) | Some(Attempt::UndefinedKind) => {
                             match x.outcome.err_kind() {
                                 Some(k) if *k != GDErrorKind::PacketReceive && *k != GDErrorKind::PacketSend => {}
                                 _ => bad = Some(("malformed-reply-not-reported".into(), format!("outcome {}", x.outcome.class()))),
